@@ -6,6 +6,7 @@ import (
 	"fmt"
 	"sort"
 	"strings"
+	"sync"
 	"testing"
 	"time"
 
@@ -712,5 +713,153 @@ func TestC13AwayReorder(t *testing.T) {
 			}
 		})
 		ev.Case(evid.Hash("away", name), true, "away-then-rename")
+	})
+}
+
+// ---- schedule points: a list fetch at the instant the client registry changes ----
+
+// pointMgr wraps the production client registry and lets the harness own one schedule
+// point: immediately before or after one Add or Delete, a function runs on the server's goroutine.
+type pointMgr struct {
+	hotline.ClientManager
+	mu    sync.Mutex
+	point string
+	fn    func()
+}
+
+func (m *pointMgr) arm(point string, fn func()) {
+	m.mu.Lock()
+	m.point, m.fn = point, fn
+	m.mu.Unlock()
+}
+
+func (m *pointMgr) fire(point string) {
+	m.mu.Lock()
+	fn := m.fn
+	if m.point != point {
+		fn = nil
+	} else {
+		m.fn, m.point = nil, ""
+	}
+	m.mu.Unlock()
+	if fn != nil {
+		fn()
+	}
+}
+
+func (m *pointMgr) Add(cc *hotline.ClientConn) {
+	m.fire("before-add")
+	m.ClientManager.Add(cc)
+	m.fire("after-add")
+}
+
+func (m *pointMgr) Delete(id hotline.ClientID) {
+	m.fire("before-delete")
+	m.ClientManager.Delete(id)
+	m.fire("after-delete")
+}
+
+// TestC13SchedPoint: histories in which an observer fetches the user list exactly when
+// another user is being added to or removed from the registry (the one place where the
+// order "registry first, notice second" matters and a settled history cannot look).
+func TestC13SchedPoint(t *testing.T) {
+	ev := evid.New("C13", "TestC13SchedPoint")
+	defer ev.Flush()
+	rapid.Check(t, func(rt *rapid.T) {
+		nOthers := rapid.IntRange(1, 3).Draw(rt, "others")
+		event := rapid.SampledFrom([]string{"close", "kick", "join"}).Draw(rt, "event")
+		when := rapid.SampledFrom([]string{"before", "after"}).Draw(rt, "when")
+		obsIdx := rapid.IntRange(0, nOthers-1).Draw(rt, "observer")
+		hadList := rapid.Bool().Draw(rt, "observerHadList")
+		inWorld(rt, hlsim.Options{Agreement: "a", Accounts: []hlsim.AccountSpec{acct("admin", "Admin", "adminpw", hlref.AllAccess().Defined()), acct("u", "U", "upw", hlref.Access{})}}, func(rt *rapid.T, w *hlsim.World) {
+			pm := &pointMgr{ClientManager: w.Srv.ClientMgr}
+			w.Srv.ClientMgr = pm
+			admin := loginAs(rt, w, "10.13.8.1:1", "admin", "adminpw", "admin")
+			var others []*pclient
+			for i := 0; i < nOthers; i++ {
+				c := &pclient{idx: i, roster: map[int]rosterEntry{}}
+				c.conn = loginAs(rt, w, fmt.Sprintf("10.13.8.%d:1", 10+i), "u", "upw", fmt.Sprintf("user%d", i))
+				others = append(others, c)
+			}
+			leaver := loginAs(rt, w, "10.13.8.99:1", "u", "upw", "leaver")
+			leaverID := 2 + nOthers
+			obs := others[obsIdx]
+			apply := func(ts []hlref.Tran, listID uint32) {
+				for _, t := range ts {
+					if t.IsReply == 1 && t.ID == listID && listID != 0 {
+						obs.roster = map[int]rosterEntry{}
+						for _, d := range t.GetAll(hlref.FUsernameWithInfo) {
+							u, err := hlref.DecodeUser(d)
+							if err != nil {
+								rt.Fatalf("user list entry: %v", err)
+							}
+							obs.roster[u.ID] = rosterEntry{name: string(u.Name), icon: u.Icon, flags: u.Flags}
+						}
+						obs.fetched = true
+						continue
+					}
+					if obs.fetched {
+						obs.fold([]hlref.Tran{t})
+					}
+				}
+			}
+			fetch := func() {
+				id := obs.conn.NewID()
+				obs.conn.Send(hlref.Tran{Type: hlref.TranGetUserNameList, ID: id}.Encode())
+				apply(obs.conn.TakeInbox(), id) // in arrival order
+			}
+			obs.conn.TakeInbox()
+			if hadList {
+				fetch()
+			}
+			done := make(chan struct{})
+			realQuiesce := hlsim.Quiesce
+			point := when + "-delete"
+			if event == "join" {
+				point = when + "-add"
+			}
+			pm.arm(point, func() {
+				// on the server's goroutine, main is parked on <-done: fake time only advances when everything else is idle
+				hlsim.Quiesce = func() { time.Sleep(time.Millisecond) }
+				fetch()
+				close(done)
+			})
+			defer func() { hlsim.Quiesce = realQuiesce }()
+			switch event {
+			case "close":
+				leaver.Close()
+			case "kick":
+				if r := admin.Request(hlref.TranDisconnectUser, fld(hlref.FUserID, hlref.BE16(leaverID))); !okReply(r) {
+					rt.Fatalf("harness: kick refused")
+				}
+			case "join":
+				j := w.Connect("10.13.8.77:1")
+				if !j.Handshake() {
+					rt.Fatalf("harness: handshake")
+				}
+				j.SendAsync(hlref.Tran{Type: hlref.TranLogin, ID: j.NewID(), Fields: hlsim.LoginOpts{Login: "u", Password: "upw", Name: []byte("joiner"), Icon: 7}.Fields()}.Encode())
+			}
+			select {
+			case <-done:
+			case <-time.After(time.Minute):
+				rt.Fatalf("harness: the registry operation %s never happened", point)
+			}
+			hlsim.Quiesce = realQuiesce
+			settle(3 * time.Second)
+			apply(obs.conn.TakeInbox(), 0)
+			us, err := admin.UserList()
+			if err != nil {
+				rt.Fatalf("harness: %v", err)
+			}
+			want := map[int]rosterEntry{}
+			for _, u := range us {
+				want[u.ID] = rosterEntry{name: string(u.Name), icon: u.Icon, flags: u.Flags}
+			}
+			if fmt.Sprint(sortedRoster(obs.roster)) != fmt.Sprint(sortedRoster(want)) {
+				rt.Fatalf("observer fetched the user list %s the registry %s of a user (%s); after everything settled its folded roster is\n  %v\nthe server's list is\n  %v",
+					when, map[bool]string{true: "add", false: "delete"}[event == "join"], event, sortedRoster(obs.roster), sortedRoster(want))
+			}
+		})
+		ev.Case(evid.Hash("sched", nOthers, event, when, obsIdx, hadList), true, "event:"+event, "when:"+when)
 	})
 }
